@@ -12,6 +12,7 @@ import Pyab.Generated.LRTables
 import Pyab.Generated.Config
 import Pyab.Generated.Pipeline
 import Pyab.Spec.Unparse
+import Pyab.Spec.UnparseMin
 open Lean Pyab
 
 namespace Drv
@@ -215,7 +216,7 @@ def handle (j : Json) : Except String Json := do
       | none => pure (Json.mkObj [("lines", Json.null)])
   | "pystr" =>
       let v ← parseVal (← j.getObjVal? "v")
-      pure (exceptJ (fun (s : String) => Json.mkObj [("str", s)]) (PyVal.pyStr v))
+      pure (exceptJ (fun (s : String) => Json.mkObj [("str", s)]) (PyVal.pyStr Generated.isPrintable v))
   | "lex" =>
       let text ← getStr j "text"
       pure (exceptJ (fun (l : List Token) => Json.mkObj [("toks", Json.arr (l.map tokJ).toArray)]) (lex pipeline.lex text))
@@ -238,6 +239,9 @@ def handle (j : Json) : Except String Json := do
         ("ast", exceptJ expJ astR),
         ("canon", match astR with
           | .ok e => if e.wf then Json.arr ((Spec.tokensOfExperiment e).map tokJ).toArray else Json.null
+          | .error _ => Json.null),
+        ("canonmin", match astR with
+          | .ok e => if e.wf then Json.arr ((Spec.tokensOfExperimentMin e).map tokJ).toArray else Json.null
           | .error _ => Json.null),
         ("gen", gen false),
         ("genx", gen true),
